@@ -155,9 +155,38 @@ def regenerate():
         errors.append({"lean": "Gen/Probes.lean", "error": "probe translator crashed: %s %s" % (ex, pp.stderr[-800:])})
     return meta, facts, errors, sizes_line
 
+class lean_lock:
+    """checks may be started concurrently: the translator output and `lake build` share one directory, so regeneration
+    and builds are serialised by an advisory lock (the lock file lives next to the build output, never under /tmp)"""
+    def __enter__(self):
+        import fcntl
+        os.makedirs(os.path.join(LEAN, ".lake"), exist_ok=True)
+        self.f = open(os.path.join(LEAN, ".lake", "verif.lock"), "w")
+        fcntl.flock(self.f, fcntl.LOCK_EX)
+        return self
+    def __exit__(self, *a):
+        import fcntl
+        fcntl.flock(self.f, fcntl.LOCK_UN); self.f.close()
+
+def private_drivers():
+    """copies of the two compiled drivers in this run's scratch directory (a later relink by a concurrent check cannot
+    pull the binary away from under a running script); returns (model, spec) paths, None when a driver is missing"""
+    import shutil
+    d = scratch_dir("skv-drv-")
+    out = []
+    with lean_lock():
+        for nm in ("skinny_model", "skinny_spec"):
+            src = os.path.join(LEAN, ".lake", "build", "bin", nm)
+            if os.path.exists(src):
+                dst = os.path.join(d, nm); shutil.copy2(src, dst); out.append(dst)
+            else:
+                out.append(None)
+    return out[0], out[1]
+
 def lake_build(targets, timeout=3600):
     """returns (ok, failed_modules, log)"""
-    p = subprocess.run(["lake", "build"] + targets, cwd=LEAN, capture_output=True, text=True, timeout=timeout)
+    with lean_lock():
+        p = subprocess.run(["lake", "build"] + targets, cwd=LEAN, capture_output=True, text=True, timeout=timeout)
     log = p.stdout + p.stderr
     failed = sorted(set(re.findall(r"^- (SkinnyVerif[\w.]*)", log, re.M)))
     return p.returncode == 0, failed, log
